@@ -32,11 +32,17 @@ def walk(data, strict=True):
         if c < 0:
             c = -c
             _, p = _var(data, p)
+        if c > len(data):
+            raise ValueError("header map count")          # a damaged header: never walk a count the file cannot hold
         for _ in range(c):
             l, p = _var(data, p)
+            if not 0 <= l <= len(data) - p:
+                raise ValueError("header key length")
             k = data[p:p + l].decode()
             p += l
             l, p = _var(data, p)
+            if not 0 <= l <= len(data) - p:
+                raise ValueError("header value length")
             meta[k] = data[p:p + l]
             p += l
     sync = data[p:p + 16]
